@@ -75,6 +75,12 @@ def gen_case(prop: str, ctx: Ctx, rng: random.Random) -> dict:
         live = rng.choice([['interval', ref - 5 * DAY, HOUR, None], ['time', 12 * HOUR, 'later', 'earlier', None]])
         members = [dead, live] if rng.random() < 0.5 else [live, dead]
         return {'expr': ['group', members, None], 'queries': [ref], 'fracs': [], 'budget': 6, 'starving_member': True}
+    if prop == 'C05' and rng.random() < 0.04:
+        # a satisfiable but very sparse date filter: 29 February (up to 8 years ahead), Friday the 13th (up to 427 days)
+        f = rng.choice([['all', [['month', [2]], ['day', [29]]]], ['all', [['weekday', [5]], ['day', [13]]]],
+                        ['all', [['month', [2]], ['day', [29]], ['weekday', [rng.randrange(1, 8)]]]]][:2])
+        e = ['time', ctx.tod(), rng.choice(['skip', 'earlier', 'later', 'after']), rng.choice(['skip', 'earlier', 'later', 'twice']), f]
+        return {'expr': e, 'chain': [ref, 3], 'fracs': []}
     if prop == 'C05':
         e = sanitize(ctx.base_expr(0.7, ref), rng)
         if rng.random() < 0.5:
@@ -235,11 +241,11 @@ def oracle(prop: str, zone: str, ref: Ref, c: dict) -> tuple[list, bool]:
             # the walk of a time trigger covers 99 999 local days: giving up while an admissible occurrence lies within
             # the reference's own horizon (800 days) is a missed run
             for dt, r in res:
-                if r == ['raise', 'EInfiniteLoop']:
+                if r[0] == 'raise':
                     want = ref.next_ref(e, dt, anchors)
                     if isinstance(want, int):
-                        bad.append(f'get_next({dt}) gave up with InfiniteLoopDetectedError although the admissible occurrence '
-                                   f'{want} exists')
+                        how = 'gave up with InfiniteLoopDetectedError' if r[1] == 'EInfiniteLoop' else f'ended with {r[1]}'
+                        bad.append(f'get_next({dt}) {how} although the admissible occurrence {want} exists')
                         decided = True
         if e[0] == 'group' and e[2] is None:
             # the union of the members' admissible occurrences: a member that never fires must not silence the others
@@ -484,6 +490,8 @@ def run(prop: str, tier: str, seed: int, scratch: Path, replay=None, model_ok=Tr
                 continue
             bad, decided = oracle(prop, z, ref, c)
             heavy = c.get('slow') or any(r == ['raise', 'EInfiniteLoop'] for _, r in c['results'])
+            # answers beyond the end of the model's time-zone tables (2041) are judged by the oracle only
+            heavy = heavy or any(r[0] == 'ok' and r[1] >= 2208988800 * NS for _, r in c['results'])
             if prop == 'C16':
                 heavy = bool(c.get('nocoq')) or len(c['draws']) > 400
                 costly = any(r == ['raise', 'EInfiniteLoop'] for _, r in c['results']) or c.get('slow') or \
